@@ -438,8 +438,12 @@ class ValueGen:
             v = Node('bytes', self.inline(root), root)
         self.pool.pop()
         opts = {'with_size': r.random() < 0.15, 'ident': r.choice([None, None, b'NSTD', b'\x01\x00\x00\x00']),
-                'block_align': r.choice([0, 0, 0, 8, 64]), 'style': 'embed' if r.random() < getattr(self, 'embed_bias', 0.25) else 'se',
-                'embed_align': r.choice([0, 0, 8, 16, 32, 64, 128, 256])}
+                'block_align': r.choice([0, 0, 0, 8, 64]), 'style': 'embed' if r.random() < getattr(self, 'embed_bias', 0.25) else 'se'}
+        # flatcc_builder_embed_buffer arguments (used when the node ends up embedded): align 1..256 (0 = the content's own), block_align
+        # 0 (inherit) or 1..256, with_size flag
+        opts['embed_align'] = r.choice([0, 0, 1, 2, 4, 8, 16, 32, 64, 128, 256])
+        opts['embed_block_align'] = r.choice([0, 0, 0, 1, 2, 4, 8, 16, 32, 64, 128, 256])
+        opts['embed_with_size'] = r.random() < getattr(self, 'embed_ws_bias', 0.2)
         return Node('nested', root, v, opts)
 
 
@@ -921,13 +925,16 @@ class ScriptGen:
         flags = 2 if o['with_size'] else 0
         idh = hx(o['ident']) if o['ident'] else '-'
         idw = int.from_bytes(o['ident'], 'little') if o['ident'] else 0
-        if o['style'] == 'embed' and len(self.memo) < 2:
-            # inside the top-level buffer nest_id is 0 and flatcc_builder_embed_buffer takes that for "no parent buffer": it emits the
-            # bytes without the ubyte vector header (reported as a finding); embed_buffer is only usable from the second level on
-            o['style'] = 'se'
+        depth = len(self.memo)      # 1 = directly inside the open top-level buffer (nest_id 0)
+        if o['style'] != 'embed' and depth == 1 and self.rng.random() < getattr(self, 'embed_top_bias', 0.0):
+            o['style'] = 'embed'
+        if o['style'] == 'embed' and depth < getattr(self, 'embed_min_depth', 1):
+            o['style'] = 'se'           # generator classes that aim the embedding at deeper levels
         if o['style'] == 'embed':
             # flatcc_builder_embed_buffer: the nested buffer exists as bytes (laid out by the independent encoder) and is embedded with
-            # its alignment (sometimes a larger one, up to 256)
+            # its alignment or any other power of two up to 256, with a block_align argument, with or without the with_size flag - at
+            # every depth, including depth 1 (a parent is open whenever the builder's level is positive; before
+            # fixes/C15-embed-buffer-inside-top-level-buffer.patch the test was nest_id != 0 and depth 1 lost the vector header)
             def plain(x):
                 if x.kind == 'nested': x.c['with_size'] = False; x.c['style'] = 'se'; plain(x.b)
                 elif x.kind == 'table':
@@ -939,12 +946,18 @@ class ScriptGen:
                     for _, e in x.a:
                         if e is not None: plain(e)
             plain(n.b)
-            o['with_size'] = False; o['indep'] = True
+            ws = bool(o.get('embed_with_size', False))
+            o['with_size'] = ws; o['indep'] = True
             enc = IndepEncoder(self.s, self.rng, extra_pad=False)
-            data = enc.buffer(n.a, n.b, False, None)
-            al = max(enc.maxal, o.get('embed_align', 0))
-            self.h.append('M:%d:%d:0:%s' % (o['block_align'], al, hx(data))); self.m.append('M:%d:%d:0:%s' % (o['block_align'], al, hx(data)))
-            self.stat('nested_embed')
+            data = enc.buffer(n.a, n.b, ws, None)
+            if ws: data = data[4:]          # the vector length written by embed_buffer doubles as the size prefix
+            ea = o.get('embed_align', 0)
+            al = ea if max(ea, 4) >= enc.maxal else enc.maxal
+            ba = o.get('embed_block_align', o['block_align'])
+            o['embed_depth'] = depth; o['embed_data'] = data; o['embed_al'] = max(al, 4, ba)
+            fl = 2 if ws else 0
+            self.h.append('M:%d:%d:%d:%s' % (ba, al, fl, hx(data))); self.m.append('M:%d:%d:%d:%s' % (ba, al, fl, hx(data)))
+            self.stat('nested_embed' + ('_top' if depth == 1 else '') + ('_sized' if ws else ''))
             return self.new()
         if o['style'] == 'c' and n.a in self.s.structs:
             # the generated <field>_create_as_root of a nested STRUCT root: create_buffer(B, fid, 0, <struct>, A, is_nested)
@@ -1332,6 +1345,25 @@ def nested_extents(s, node, rd, tpos, out, path='', objs=None, level=0):
             if v.b.kind == 'table':
                 nb = vec + 4
                 nested_extents(s, v.b, rd, rd.follow(nb), out, path + '/' + f.name + '!', objs, len(out) + 1000 * (level + 1))
+
+
+def embed_header_lost(s, node, raw, hp):
+    """paths of the nested fields filled by embed_buffer directly inside the top-level buffer whose [ubyte] field points straight at the
+    embedded bytes, i.e. the ubyte vector length is missing (the first word of the embedded buffer is read as the length).  Located by
+    the independent reader; a walk that breaks off later (it descends into what it takes for nested content) does not matter."""
+    if node.kind != 'table': return []
+    rd = PyReader(raw)
+    ext = []
+    try:
+        nested_extents(s, node, rd, rd.follow(hp), ext, '', None, 0)
+    except Exception:
+        pass
+    lost = []
+    for path, p, ln, v, level in ext:
+        d = v.c.get('embed_data')
+        if level == 0 and v.c.get('embed_depth') == 1 and d and raw[p - 4:p - 4 + len(d)] == d and ln != len(d):
+            lost.append(path)
+    return lost
 
 
 def req_align(s, n, t=None):
